@@ -835,6 +835,20 @@ def _key(rng, comp=None):
     return (bytes([rng.choice([2, 3])]) + rng.randbytes(32)) if comp else (b"\x04" + rng.randbytes(64))
 
 
+# data-item patterns whose treatment must not depend on the neighbouring element: script numbers (minimal and padded),
+# sign-bit endings, zero endings, all-zero, single small values, and the direct-push / PUSHDATA1 boundary
+def _adjacency_patterns(rng):
+    pats = ["00", "01", "02", "10", "7f", "80", "81", "ff", "0000", "0100", "0500", "ff00", "7f80", "8000", "0080", "e803",
+            "e80300", "e8030000", "e803000000", "7f00000000", "ffff0000", "00000000", "0000000000", "000000000000",
+            "ffffff7f", "ffffffff00", "0000008000", "010000000000", "aabbccddee80", "aabbccddeeff"]
+    pats += [rng.randbytes(n).hex() for n in (1, 2, 3, 4, 5, 6)]
+    pats += [(rng.randbytes(n - 1) + e).hex() for n in (2, 3, 4, 5, 6) for e in (b"\x00", b"\x80", b"\xff")]
+    pats += [(rng.randbytes(n - 2) + b"\x00\x00").hex() for n in (3, 4, 5, 6)]
+    pats += [(rng.randbytes(74) + b"\x00").hex(), (rng.randbytes(75) + b"\x00").hex(), "00" * 75, "00" * 76,
+             (rng.randbytes(73) + b"\x00\x00").hex()]
+    return pats
+
+
 def gen_cases(rng, tier):
     T = tier == "thorough"
     out = []
@@ -924,6 +938,63 @@ def gen_cases(rng, tier):
     for _ in range(400 if T else 80):                       # random, but mostly opcode-range bytes
         Dd("dec-rand-ops", bytes(rng.choice([rng.randrange(0x4f, 0xbb), rng.randrange(256), 0, 1, 2]) for _ in range(rng.randrange(1, 30))))
 
+    # ---- adjacency: every data pattern FOLLOWED BY and PRECEDED BY every opcode name (aliases included), and
+    #      pairs of adjacent data items; assembled, and the reference assembly disassembled ----
+    pats = _adjacency_patterns(rng)
+    names = [n for n in sorted(REF) if REF[n] not in PUSHDATA]
+    for n in names:
+        if T:
+            for p in pats:
+                A("adj-op-" + ("locktime" if REF[n] in (0xb1, 0xb2) else "any"), [p, n, p])
+        groups = [pats[i::3] for i in range(3)]
+        for g in groups:
+            strs = []
+            for p in g:
+                strs += [p, n, p]
+            A("adj-op-" + ("locktime" if REF[n] in (0xb1, 0xb2) else "any") + "-multi", strs)
+            Dd("dec-adj-op", ref_asm([_classify(x) for x in strs]))
+    for n in ("OP_CHECKLOCKTIMEVERIFY", "OP_CHECKSEQUENCEVERIFY", "OP_NOP2", "OP_NOP3", "OP_CHECKSIG", "OP_CHECKMULTISIG",
+              "OP_EQUAL", "OP_IF", "OP_RETURN", "OP_PICK", "OP_ROLL", "OP_1ADD", "OP_WITHIN", "OP_SIZE", "OP_0", "OP_1NEGATE"):
+        for p in pats:                                   # script-number consumers individually, in both tiers
+            A("adj-num-" + n[3:].lower(), [p, n, "OP_DROP"])
+            A("adj-num-" + n[3:].lower() + "-pre", ["OP_DUP", n, p])
+    for p in pats:                                       # a data item at the end, alone between data items
+        A("adj-data-data", [p, p])
+        A("adj-data-data", [rng.choice(pats), p, rng.choice(pats)])
+    # ---- element counts above the consensus limits (201 ops, 520-byte elements, 10000-byte scripts, 1000 items):
+    #      the codec is not an interpreter, it assembles and disassembles them all ----
+    def _limits():
+        yield "ops", lambda k: ["OP_DUP"] * k
+        yield "ops-alt", lambda k: ["OP_DUP", "OP_DROP"] * (k // 2) + ["OP_NOP"] * (k % 2)
+        yield "ops-mixed", lambda k: (["OP_1", "aa", "OP_ADD", "OP_16", "OP_1NEGATE", "OP_CHECKSIG"] * k)[: 3 * k]
+        yield "ops-all", lambda k: (names * (k // len(names) + 1))[:k]
+        yield "items", lambda k: ["%02x" % (i & 0xff) for i in range(k)]
+        yield "smallints", lambda k: ["OP_%d" % (i % 17) for i in range(k)]
+    for nm, f in _limits():
+        for k in (199, 200, 201, 202, 203, 402, 1000, 1001) + ((10000, 10001) if T or nm in ("ops", "items") else ()):
+            strs = f(k)
+            A("limit-%s-%d" % (nm, k) if k in (201, 202) else "limit-" + nm, strs)
+            Dd("dec-limit-%s-%d" % (nm, k) if k in (201, 202) else "dec-limit-" + nm, ref_asm([_classify(x) for x in strs]))
+    for n in (519, 520, 521, 522, 9999, 10000, 10001):
+        A("limit-element-%d" % n if n in (520, 521) else "limit-script-size", ["OP_IF", rng.randbytes(n).hex(), "OP_ENDIF"])
+        Dd("dec-limit-element" if n < 1000 else "dec-limit-script-size", ref_asm([("data", rng.randbytes(n)), ("op", "OP_DROP")]))
+    A("limit-script-size", [rng.randbytes(500).hex(), "OP_DROP"] * 21)          # 10563 bytes, every element <= 520
+    A("limit-multisig-20", ["OP_15"] + [_key(rng, True).hex() for _ in range(20)] + ["14", "OP_CHECKMULTISIG"] + ["OP_DUP"] * 182)
+    # ---- content that looks like structure / pairs that collide under cheap fingerprints -------------------------
+    for d in (b"OP_DUP", b"OP_0", b"76a914", b"\x4c\x01", b"\x4d\x01\x00", b"\x4e\x01\x00\x00\x00", b"\x01", b"\x4b" * 75, b"\x4c" * 76,
+              b"0123456789abcdef", b"\xfd\xfd\x00", b"\xfe" * 5, b"\xff" * 9, b"\x00"):
+        A("asm-looks-like", [d.hex(), "OP_DROP", d.hex()])
+        Dd("dec-looks-like", ref_asm([("data", d), ("op", "OP_DROP"), ("data", d)]))
+    for _ in range(40 if T else 8):
+        n = rng.choice([20, 33, 76, 300])
+        d1 = bytearray(rng.randbytes(n)); d2 = bytearray(d1); d2[n // 2] ^= 1 << rng.randrange(8)
+        A("asm-collide-pair", ["OP_DUP", bytes(d1).hex(), "OP_EQUAL"])          # same length, same first/last bytes
+        A("asm-collide-pair", ["OP_DUP", bytes(d2).hex(), "OP_EQUAL"])
+        h = rng.randbytes(6).hex()
+        A("asm-split-pair", [h[:4], h[4:]])                                      # (a+b, c) vs (a, b+c)
+        A("asm-split-pair", [h[:8], h[8:]])
+        A("asm-split-pair", [h])
+
     # ---- template builders --------------------------------------------------------------------
     B = lambda cls, op, *args: out.append(case(cls, op, *args))
     reps = 6 if T else 2
@@ -966,10 +1037,11 @@ def gen_cases(rng, tier):
         B("b-multisig-sig", "multisig_script_sig", [_sig(rng) for _ in range(n)])
     B("b-multisig-sig", "multisig_script_sig", [])
     # outside the templates: refusals and one-byte-length boundaries
-    for m, n in ((0, 1), (0, 0), (1, 0), (2, 1), (17, 17), (1, 17), (16, 17), (-1, 3), (3, 2)):
+    for m, n in ((0, 1), (0, 0), (1, 0), (2, 1), (17, 17), (1, 17), (16, 17), (-1, 3), (3, 2), (1, 20), (20, 20), (15, 21),
+                 (2 ** 512, 3), (-2 ** 512, 3)):
         B("b-multisig-bad", "multisig_script_pubkey", m, [_key(rng) for _ in range(n)])
         B("b-multisig-bad", "p2sh_multisig_script_pubkey", m, [_key(rng) for _ in range(n)])
-    for v in (-1, 17, 100, 2 ** 70, -2 ** 70):
+    for v in (-1, 17, 100, 2 ** 70, -2 ** 70, 2 ** 512, 2 ** 1024):
         B("b-witver-bad", "p2wpkh_script_pubkey", rng.randbytes(20), v)
         B("b-witver-bad", "p2wsh_script_pubkey", rng.randbytes(32), v)
         B("b-witver-bad", "p2sh_p2wpkh_script_pubkey", rng.randbytes(20), v)
@@ -1099,6 +1171,13 @@ def gen_cases(rng, tier):
         CD("cli-dec-variant-" + v, ref_asm([("op", "OP_HASH160"), ("data", rng.randbytes(20)), ("op", "OP_EQUAL")]), v)
     for _ in range(120 if T else 12):
         CD("cli-dec-prog", ref_asm(_rand_items(rng, 6, big=False)), rng.choice(variants))
+    for k in (201, 202, 1000):                            # above the interpreter's limits, through the CLI as well
+        CD("cli-dec-limit-ops-%d" % k, ref_asm([("op", n) for n in (["OP_DUP", "OP_DROP"] * k)[:k]]))
+        CA("cli-asm-limit-ops-%d" % k, (["OP_DUP", "OP_DROP"] * k)[:k])
+    CD("cli-dec-limit-element", ref_asm([("data", rng.randbytes(521)), ("op", "OP_DROP")]))
+    CA("cli-asm-locktime", ["e8030000", "OP_CHECKLOCKTIMEVERIFY", "OP_DROP", "0500", "OP_CHECKSEQUENCEVERIFY", "7f00000000", "OP_NOP2", "00", "OP_NOP3"])
+    for p_ in rng.sample(pats, 6):
+        CA("cli-asm-adj", [p_, rng.choice(["OP_CHECKLOCKTIMEVERIFY", "OP_CHECKSEQUENCEVERIFY", "OP_NOP2", "OP_NOP3"]), p_, rng.choice(names), p_])
     for hx in ("ee", "76ee", "4c", "76fd", "fe"):            # the library refuses: KeyError / IndexError
         CD("cli-dec-refuse", bytes.fromhex(hx))
         CD("cli-dec-refuse", bytes.fromhex(hx), "out-raw")
